@@ -200,7 +200,9 @@ func xfpLines(class string, r *rand.Rand) [][2]string {
 	case "upper":
 		return [][2]string{{n, pick(r, "HTTPS", "Https", "hTTPS")}}
 	case "list":
-		return [][2]string{{n, pick(r, "https, http", "https,https", "http, https", "https,http")}}
+		return [][2]string{{n, pick(r, "https, http", "https,https", "https,http", "https , https")}}
+	case "listhttp":
+		return [][2]string{{n, pick(r, "http, https", "http,https", "http, http", "http , https, https")}}
 	case "lines":
 		return [][2]string{{n, "https"}, {pick(r, n, "X-Forwarded-Proto"), pick(r, "http", "https", "ftp")}}
 	case "junk":
